@@ -97,7 +97,12 @@ func (Engine) Run(c *simkit.Choices, x *simkit.Ctx) *simkit.Violation {
 			sc.Ctor = "bytes"
 		} else {
 			sc.Ctor = "reader"
-			sc.BufSize = bufSizes[c.N(len(bufSizes))]
+			// a buffer exactly as large as one of the values (+-1) a third of the time
+			var lens []int
+			for _, sp := range doc.Values {
+				lens = append(lens, sp[1]-sp[0])
+			}
+			sc.BufSize = common.DrawBufSize(c, lens...)
 			nr := 1 + c.N(4)
 			for i := 0; i < nr; i++ {
 				switch c.N(3) {
